@@ -37,7 +37,26 @@ def sites():
         src, lines = body_lines(f)
         rel = os.path.relpath(f, R)
         depth_stmt = None
+        params = []          # parameter names of the function whose body we are in (wrong-variable operator)
+        sig = None
         for i, l in lines:
+            # track function signatures (possibly spanning lines) to know the parameter names in scope
+            if re.search(r'\bfn \w+', l):
+                sig = ''
+            if sig is not None:
+                sig += ' ' + l.split('//')[0]
+                if '{' in l or ';' in l:
+                    inner = sig[sig.find('(') + 1: sig.rfind(')')] if '(' in sig and ')' in sig else ''
+                    params = [m.group(1) for m in re.finditer(r'(?:^|,)\s*(?:mut )?(\w+)\s*:', inner) if m.group(1) not in ('env', 'self', '_env')]
+                    sig = None
+                    continue
+            elif params and len(params) >= 2 and '(' in l and not l.strip().startswith(('//', '#[', 'use ', 'fn ', 'pub fn ')):
+                code0 = l.split('//')[0]
+                for k, pn in enumerate(params):
+                    for m in re.finditer(r'(?<![\w.])' + re.escape(pn) + r'(?![\w(])', code0):
+                        alt = params[(k + 1) % len(params)]
+                        new0 = code0[:m.start()] + alt + code0[m.end():]
+                        res.append(dict(file=rel, line=i, kind='wrong-variable', old=[l], new=[new0]))
             s = l.strip()
             if s.startswith('//') or s.startswith('use ') or s.startswith('#[') or s.startswith('///'):
                 continue
